@@ -156,3 +156,32 @@ def replay(body):
     if not fails:
         print('scenario passes on this tree')
     return 1 if fails else 0
+
+
+@provider('C10')
+def histories(prop, tier, seed):
+    rng = random.Random(seed)
+    acts = ['portfolio', 'single', 'optimize', 'json']
+    cases = []
+    for _ in range(_n(tier, 14, 60)):
+        L = rng.randint(1, 3)
+        cases.append(dict(history=[(rng.choice(['G1', 'G2', 'G3']), rng.choice(acts)) for _ in range(L)], final=rng.choice(['G1', 'G2', 'G3']),
+                          share_grid_objects=rng.random() < 0.6, hseed=rng.randint(0, 999)))
+    return dict(bounded=run_cases(sc.check_history, cases, 'histories of length <= 3 over {portfolio set-up, single asset set-up, optimise+extract, to_json} x grids {naive hourly, CET hourly, 2h/main unit d} on a 5-asset portfolio with mixed waccs / windows / interval capacities; final problem compared with fresh objects',
+                                  'history length <= 3, 3 grids', 70 if tier == 'quick' else 400))
+
+
+@provider('C04')
+def output_histories(prop, tier, seed):
+    rng = random.Random(seed)
+    cases = [dict(hseed=rng.randint(0, 999)) for _ in range(_n(tier, 4, 12))]
+    return dict(bounded=run_cases(sc.check_output_history, cases, 'two portfolios sharing asset objects set up, optimised and extracted in an interleaved order: value = DCF total, per-asset DCF = -c.x of own variables',
+                                  '5-6 assets, 24 steps', 50 if tier == 'quick' else 200))
+
+
+@provider('C03')
+def optimize_histories(prop, tier, seed):
+    rng = random.Random(seed)
+    cases = [dict(hseed=rng.randint(0, 999), soft_first=sf) for sf in (True, False, True) for _ in range(_n(tier, 1, 3))]
+    return dict(bounded=run_cases(sc.check_optimize_history, cases, 'MIP storage portfolio optimised twice on the same problem object (first run relaxed or not): frame, second run = fresh run, flagged variables integral',
+                                  '6 steps', 40 if tier == 'quick' else 120))
